@@ -2,10 +2,18 @@
   Property C07 — executors: an accepted task runs exactly once, on a thread that reports itself as
   running in that executor, its future becomes ready; stop() / the destructor drain submitted work
   including tasks spawned into local queues; a failed submission never runs and yields an invalid
-  future.  Property theorems only (helper lemmas live next to the model, Babylon/Exec/Lemmas*.lean).
+  future.  Property theorems only (the model is Babylon/Exec/Model.lean, helper lemmas and the
+  inductive invariants live in Babylon/Exec/Inv*.lean).
+
+  All theorems quantify over every reachable state of the ticket-level transition system `Step c`,
+  i.e. over every interleaving of external submitters, workers (own queue, stealing, blocking global
+  pop), the balance thread and `stop()`, every worker count, global / local capacity, stealing on or
+  off, balance thread present or not, and every task program (tasks submit any number of children,
+  from inside or outside a foreign executor scope).  What is assumed of the bounded queue below the
+  tickets is stated as Q1–Q5 at the top of the model (properties C01/C02).
 -/
-import Babylon.Exec.Model
-import Babylon.Exec.Simple
+import Babylon.Exec.InvAll
+import Babylon.Exec.SimpleLemmas
 
 namespace Babylon.Properties.C07
 open Babylon.Exec Babylon.Core
@@ -13,5 +21,380 @@ open Babylon.Exec Babylon.Core
 /-! ## Generated obligations: the source the model was written against -/
 
 theorem gen_queue_sizing : Gen.Exec.globalFactor = 2 ∧ Gen.Exec.localFactor = 2 := by decide
+
+/-- call-site flags of the queue operations (which side is concurrent, who waits on a futex, who wakes) -/
+theorem gen_queue_flags :
+    Gen.Exec.globalPushFlags = [true, false, true] ∧ Gen.Exec.stopPushFlags = [true, false, true] ∧
+    Gen.Exec.wakeupPushFlags = [true, false, true] ∧ Gen.Exec.globalPopFlags = [true, true, false] ∧
+    Gen.Exec.localPushFlags = [false, false, false] ∧ Gen.Exec.ownPopFlags = [true, false] ∧
+    Gen.Exec.stealPopFlags = [true, false] ∧ Gen.Exec.balancePopFlags = [true, false] := by decide
+
+/-- `stop()`: clear `_running`, join the balance thread, one STOP per worker, join the workers -/
+theorem gen_stop_order :
+    Gen.Exec.stmts_stop =
+      ["if(!_running.load(::std::memory_order_acquire)){return;}",
+       "_running.store(false,::std::memory_order_release);",
+       "if(_balance_thread.joinable()){_balance_thread.join();}",
+       "for(size_ti=0;i<_threads.size();++i){_global_task_queue.push<true,false,true>(Task{.type=TaskType::STOP,.function{}});}",
+       "for(auto&thread:_threads){thread.join();}",
+       "_threads.clear();"] ∧
+    Gen.Exec.stmts_dtor = ["stop();"] := by decide
+
+/-- the worker loop: own queue, then (optionally) the stealing scan, then the blocking global pop;
+FUNCTION runs, STOP returns, WAKEUP loops -/
+theorem gen_keep_execute :
+    Gen.Exec.skel_keep_execute =
+      [.call "local", .call "try_pop", .call "for_each", .call "try_pop", .call "pop", .call "task.function"] ∧
+    Gen.Exec.dispatch =
+      "caseTaskType::FUNCTION:{task.function();}break;caseTaskType::STOP:{return;}caseTaskType::WAKEUP:{}break;default:(static_cast<void>(0));" := by
+  decide
+
+/-- `enqueue_task`: local queue only on a thread running in the pool, with capacity > 0 and
+`size() < capacity`; otherwise the global queue -/
+theorem gen_enqueue_task :
+    Gen.Exec.stmts_enqueue_task =
+      ["if(is_running_in()){if(_local_capacity>0){auto&local_queue=_local_task_queues.local();if(local_queue.size()<_local_capacity){local_queue.push<false,false,false>(::std::move(task));return0;}}}",
+       "_global_task_queue.push<true,false,true>(::std::move(task));",
+       "return0;"] ∧
+    Gen.Exec.skel_bq_size = [.load "_next_pop_index" .rlx, .load "_next_push_index" .rlx] := by decide
+
+/-- the repaired balance thread pops into a local `Task` and forwards it afterwards (the slot of the
+local queue is released before the possibly blocking global push) — pins the shape fixed by 4e1dfd6 -/
+theorem gen_balance_forwards_after_pop :
+    Gen.Exec.stmts_keep_balance =
+      ["while(_running.load(::std::memory_order_acquire)){::std::this_thread::sleep_for(_balance_interval);_local_task_queues.for_each([&](TaskQueue*iter,TaskQueue*end){while(iter!=end){auto&queue=*iter++;Tasktask;while(queue.try_pop<true,false>(task)){enqueue_task(::std::move(task));}}});}"] := by
+  decide
+
+/-- index-level shape of the queue operations the ticket specification Q1–Q5 speaks about -/
+theorem gen_queue_ticket_ops :
+    Gen.Exec.skel_bq_try_deal =
+      [.load "next_index" .rlx, .call "futex.version", .load "next_index" .rlx,
+       .cas "next_index" false .rlx .rlx, .store "next_index" .rlx, .call "callback",
+       .call "set_version_and_wakeup_waiters", .call "futex.set_version"] ∧
+    Gen.Exec.skel_bq_push =
+      [.rmw "fetch_add" "_next_push_index" .rlx, .load "_next_push_index" .rlx,
+       .store "_next_push_index" .rlx, .call "deal"] ∧
+    Gen.Exec.skel_bq_pop =
+      [.rmw "fetch_add" "_next_pop_index" .rlx, .load "_next_pop_index" .rlx,
+       .store "_next_pop_index" .rlx, .call "deal"] := by decide
+
+/-- the front end's failure branch and the three `invoke`s -/
+theorem gen_front_end :
+    Gen.Exec.executeFailAction = "future=Future<R,F>();" ∧
+    Gen.Exec.stmts_basic_invoke = ["return-1;"] ∧
+    Gen.Exec.stmts_inplace_invoke = ["RunnerScopescope{*this}", "function();", "return0;"] ∧
+    Gen.Exec.skel_newthread_invoke =
+      [.rmw "fetch_add" "_running" .acqrel, .call "::std::thread", .call "captured_function",
+       .rmw "fetch_sub" "_running" .acqrel, .call "detach"] ∧
+    Gen.Exec.skel_newthread_join = [.load "_running" .acq, .call "usleep"] ∧
+    Gen.Exec.stmts_is_running_in = ["returnthis==current();"] := by decide
+
+/-! ## The thread pool -/
+
+/-- where task `id` really is: an unreleased cell of the global or of a local queue, the hands of a
+thread (carried towards a queue, about to run, running), or finished -/
+def AtPlace (s : State) (id : Nat) : Loc → Prop
+  | .gq i => s.g.itemAt i = some (.task id) ∧ s.g.stAt i ≠ some .free
+  | .lq k i => (s.l k).itemAt i = some (.task id) ∧ (s.l k).stAt i ≠ some .free
+  | .hand t => (s.pc t).carry = some id ∨ (s.pc t).exec = some id
+  | .fin => s.done id = true
+  | .nowhere => False
+
+/-- **exec_task_conservation.**  In every reachable state every task that entered the executor is in
+exactly one place; a task that did not enter is nowhere; its function has been entered at most once,
+exactly once iff it is running or finished. -/
+theorem exec_task_conservation (c : Cfg) (hc : c.WF) (s : State) (hr : Reach c s) (id : Nat) :
+    (s.known id = true → ∃ p, AtPlace s id p ∧ ∀ q, AtPlace s id q → q = p) ∧
+    (s.known id = false → ∀ q, ¬ AtPlace s id q) ∧
+    s.runs id ≤ 1 ∧
+    (s.runs id = 1 ↔ (s.done id = true ∨ ∃ t, (s.pc t).exec = some id ∧ s.pc t ≠ .wPre id)) := by
+  obtain ⟨I, J, B, K, X, U, M, Z⟩ := Inv.reachable hc hr
+  have huniq : ∀ q, AtPlace s id q → q = s.loc id := by
+    intro q hq
+    cases q with
+    | nowhere => exact hq.elim
+    | gq i => exact (K.b1 i id hq.1 hq.2).symm
+    | lq k i => exact (K.b2 k i id hq.1 hq.2).symm
+    | hand t =>
+      rcases hq with h | h
+      · exact (K.b3c t id h).symm
+      · exact (K.b3e t id h).symm
+    | fin => exact ((K.a4 id).mpr hq).symm
+  have hat : s.known id = true → AtPlace s id (s.loc id) := by
+    intro hk
+    cases hl : s.loc id with
+    | nowhere => rw [(K.a5 id).mp hl] at hk; cases hk
+    | gq i => exact K.a1 id i hl
+    | lq k i => exact K.a2 id k i hl
+    | hand t => exact K.a3 id t hl
+    | fin => exact (K.a4 id).mp hl
+  refine ⟨fun hk => ⟨s.loc id, hat hk, huniq⟩, ?_, ?_, ?_⟩
+  · intro hk q hq
+    have h1 := huniq q hq
+    have h2 := (K.a5 id).mpr hk
+    rw [h2] at h1; subst h1; exact hq
+  · cases hl : s.loc id with
+    | nowhere => rw [U.u1 id hl]; omega
+    | gq i => rw [U.u2 id i hl]; omega
+    | lq k i => rw [U.u3 id k i hl]; omega
+    | fin => rw [U.u4 id hl]; omega
+    | hand t =>
+      by_cases h : (s.pc t).exec = some id ∧ s.pc t ≠ .wPre id
+      · rw [U.u5 id t hl h.1 h.2]; omega
+      · have : (s.pc t).exec ≠ some id ∨ s.pc t = .wPre id := by
+          by_cases h1 : (s.pc t).exec = some id
+          · right; exact Classical.byContradiction (fun h2 => h ⟨h1, h2⟩)
+          · left; exact h1
+        rw [U.u6 id t hl this]; omega
+  · constructor
+    · intro h1
+      cases hl : s.loc id with
+      | nowhere => rw [U.u1 id hl] at h1; cases h1
+      | gq i => rw [U.u2 id i hl] at h1; cases h1
+      | lq k i => rw [U.u3 id k i hl] at h1; cases h1
+      | fin => exact Or.inl ((K.a4 id).mp hl)
+      | hand t =>
+        right
+        refine ⟨t, ?_⟩
+        apply Classical.byContradiction
+        intro hn
+        have : (s.pc t).exec ≠ some id ∨ s.pc t = .wPre id := by
+          by_cases h1' : (s.pc t).exec = some id
+          · right; exact Classical.byContradiction (fun h2 => hn ⟨h1', h2⟩)
+          · left; exact h1'
+        rw [U.u6 id t hl this] at h1; cases h1
+    · rintro (hd | ⟨t, hex, hne⟩)
+      · exact U.u4 id ((K.a4 id).mpr hd)
+      · exact U.u5 id t (K.b3e t id hex) hex hne
+
+/-- **exec_worker_exit_clean.**  (a) From the moment a worker has found its own local queue empty
+until it is back at the loop head — in particular while it scans for work to steal, waits on the
+global queue, returns on a STOP, and for ever after it has returned — its own local queue holds no
+unclaimed ticket.  (b) A worker returns only on a `STOP` it received from the global queue (the ticket
+is recorded).  (c) Only the owner of a slot pushes into that slot's queue. -/
+theorem exec_worker_exit_clean (c : Cfg) (hc : c.WF) (s : State) (hr : Reach c s) :
+    (∀ w k, (s.pc w).afterEmpty = true → s.owner k = some w → (s.l k).cells.length ≤ (s.l k).popIdx) ∧
+    (∀ w, w ∈ c.workers → s.pc w = .exited →
+      ∃ j, s.exitTicket w = some j ∧ s.g.itemAt j = some .stop ∧ s.g.stAt j = some .free) ∧
+    (∀ t k v s', step c s t (.stPush k v) = some s' → s.owner k = some t) := by
+  obtain ⟨I, J, B, K, X, U, M, Z⟩ := Inv.reachable hc hr
+  refine ⟨J.l7, ?_, ?_⟩
+  · intro w hw hex
+    have := M.e1 w (Or.inr ⟨hex, hw⟩)
+    cases het : s.exitTicket w with
+    | none => exact absurd het this.1
+    | some j => exact ⟨j, rfl, this.2 j het⟩
+  · intro t k v s' hst
+    have hcase := step_cases hst
+    cases hcase with
+    | rLSt id cid p k' hpc hown hp =>
+      exact I.o2 t _ hown (by rw [hpc]; rfl)
+
+/-- **exec_stop_drains.**  When `stop()` (or the destructor) returns — and at any time afterwards —
+every task whose submission had reported success before `stop()` was called, and every task that was
+ever pushed into a local queue, has finished.  (A pool without workers runs nothing; tasks pushed
+directly into the global queue after `stop()` began are outside the property.) -/
+theorem exec_stop_drains (c : Cfg) (hc : c.WF) (hw : c.workers ≠ []) (s : State) (hr : Reach c s)
+    (hret : s.stopReturned = true ∨ ∃ t, s.pc t = .sEnd) (id : Nat) (hk : s.known id = true)
+    (hcov : s.preStop id = true ∨ s.viaLocal id = true) : s.done id = true := by
+  obtain ⟨I, J, B, K, X, U, M, Z⟩ := Inv.reachable hc hr
+  have hall : (∀ u, u ∈ c.workers → s.pc u = .exited) ∧ balExited c s := by
+    rcases hret with h | ⟨t, h⟩
+    · exact M.j3 h
+    · exact M.j2 t h
+  obtain ⟨hwx, hbx⟩ := hall
+  -- every thread whose program counter belongs to a worker or to the balance thread has returned
+  have hrole : ∀ t, (s.pc t).role = .worker ∨ (s.pc t).role = .bal → False := by
+    intro t h
+    rcases h with h | h
+    · have := hwx t (I.r1 t h); rw [this] at h; simp [Pc.role] at h
+    · have := hbx t (I.r2 t h); rw [this] at h; simp [Pc.role] at h
+  cases hl : s.loc id with
+  | nowhere => rw [(K.a5 id).mp hl] at hk; cases hk
+  | fin => exact (K.a4 id).mp hl
+  | hand t =>
+    exfalso
+    rcases K.a3 id t hl with hcar | hex
+    · -- carried: by an external submitter (then neither accepted nor local) — workers and balancer are gone
+      by_cases hb : (s.pc t).role = .bal
+      · exact hrole t (Or.inr hb)
+      · have := K.v2 t id hcar hb
+        rcases hcov with h | h
+        · have := K.f5 id h; simp_all
+        · simp_all
+    · -- executing: only workers execute
+      have : (s.pc t).role = .worker := by
+        have hwf := I.wf t
+        revert hex hwf
+        generalize s.pc t = p
+        intro hex hwf
+        exact exec_role c p hwf id hex
+      exact hrole t (Or.inl this)
+  | lq k i =>
+    exfalso
+    obtain ⟨hit, hst⟩ := K.a2 id k i hl
+    -- the queue has an owner (it is non-empty), the owner has returned, so the queue is drained
+    cases how : s.owner k with
+    | none =>
+      have := J.l3 k how
+      simp [Q.itemAt, this] at hit
+    | some w =>
+      have hwm : w ∈ c.workers := I.o5 w k (I.o1 k w how)
+      have hex := hwx w hwm
+      have hdr := J.l7 w k (by rw [hex]; rfl) how
+      obtain ⟨st, hst'⟩ := Q.itemAt_some_stAt _ _ _ hit
+      have hlt := Q.stAt_some_lt _ _ _ hst'
+      have hcell := Q.cell_of _ _ _ _ hit hst'
+      have := (J.l1 k i _ hcell).mpr (by omega)
+      simp at this
+      rw [this] at hst'; exact hst hst'
+  | gq i =>
+    exfalso
+    obtain ⟨hit, hst⟩ := K.a1 id i hl
+    have hgt := K.t1 id i hl
+    -- the first worker returned on a STOP with ticket j0; all pop tickets up to it have been served
+    obtain ⟨w0, hw0⟩ : ∃ w0, w0 ∈ c.workers := by
+      cases hws : c.workers with
+      | nil => exact absurd hws hw
+      | cons a _ => exact ⟨a, by simp⟩
+    have he := M.e1 w0 (Or.inr ⟨hwx w0 hw0, hw0⟩)
+    cases het : s.exitTicket w0 with
+    | none => exact absurd het he.1
+    | some j0 =>
+      obtain ⟨hj0s, hj0f⟩ := he.2 j0 het
+      obtain ⟨hfm, hfmle⟩ := M.m2 j0 hj0s
+      cases hf : s.firstMarker with
+      | none => exact absurd hf hfm
+      | some jf =>
+        have h1 : i < jf := M.m3 id i jf hcov hgt hf
+        have h2 : jf ≤ j0 := hfmle jf hf
+        -- cell j0 is free, hence below the pop index
+        have hj0lt : j0 < s.g.popIdx := by
+          apply Nat.lt_of_not_le
+          intro hle
+          obtain ⟨st, hst'⟩ := Q.itemAt_some_stAt _ _ _ hj0s
+          have hcell := Q.cell_of _ _ _ _ hj0s hj0f
+          exact J.g0 j0 _ hcell hle rfl
+        -- so ticket i has been handed out; nobody waits any more, hence its cell is free
+        rcases J.g1 i (by omega) with hfree | ⟨w, hw'⟩
+        · exact hst hfree
+        · have : (s.pc w).role = .worker := by rw [hw']; rfl
+          exact hrole w (Or.inl this)
+
+/-- **exec_runs_inside.**  (a) A task's function is entered only on a thread of the pool, inside
+`keep_execute`'s `RunnerScope` and outside any foreign scope, i.e. where `is_running_in()` is true.
+(b) A failed submission leaves no entry: the task never runs, never finishes, its future is invalid.
+(c) An accepted task that has finished has a valid, ready future.  (d) A submission takes the local
+path only on a thread running in the pool (`inp` is what `is_running_in()` returns). -/
+theorem exec_runs_inside (c : Cfg) (hc : c.WF) (s : State) (hr : Reach c s) :
+    (∀ t id inp s', step c s t (.run id inp) = some s' → inp = true ∧ t ∈ c.workers ∧ s.scope t = 0) ∧
+    (∀ id, s.rejected id = true →
+      s.known id = false ∧ s.runs id = 0 ∧ s.done id = false ∧ s.futValid id = false ∧ s.accepted id = false) ∧
+    (∀ id, s.accepted id = true → s.done id = true → s.futValid id = true ∧ s.futReady id = true) ∧
+    (∀ t id inp s', step c s t (.submit id inp) = some s' →
+      (inp = true ↔ ((s.pc t).role = .worker ∧ s.scope t = 0))) := by
+  obtain ⟨I, J, B, K, X, U, M, Z⟩ := Inv.reachable hc hr
+  refine ⟨?_, ?_, ?_, ?_⟩
+  · intro t id inp s' hst
+    have hcase := step_cases hst
+    cases hcase with
+    | wRunTask id hpc hscope => exact ⟨rfl, I.r1 t (by rw [hpc]; rfl), hscope⟩
+  · intro id hrej
+    have hk := K.f1 id hrej
+    have hl := (K.a5 id).mpr hk
+    refine ⟨hk, U.u1 id hl, ?_, ?_, ?_⟩
+    · cases hd : s.done id with
+      | false => rfl
+      | true => have := (K.a4 id).mpr hd; rw [hl] at this; cases this
+    · cases hv : s.futValid id with
+      | false => rfl
+      | true => have := (K.f2 id (K.f4 id hv)).1; rw [hk] at this; cases this
+    · cases ha : s.accepted id with
+      | false => rfl
+      | true => have := (K.f2 id ha).1; rw [hk] at this; cases this
+  · intro id ha hd
+    exact ⟨(K.f2 id ha).2, K.f3 id hd⟩
+  · intro t id inp s' hst
+    have hcase := step_cases hst
+    cases hcase with
+    | submitExt id hpc hk hrj =>
+      constructor
+      · intro h; cases h
+      · intro h; rw [hpc] at h; simp [Pc.role] at h
+    | submitIn id0 cid hpc hk hrj =>
+      constructor
+      · intro h; exact ⟨by rw [hpc]; rfl, by simpa using h⟩
+      · intro h; simpa using h.2
+
+/-- **exec_local_push_never_blocks** (part of `exec_no_stuck`).  With the repaired balance thread the
+push into a local queue never waits for a slot: whenever a worker holds a local push ticket, the
+completion of that push is enabled.  (Before the repair the balance thread could keep the slot of
+ticket `p - slots` occupied while blocked on the full global queue; corpus case `hold 177`.) -/
+theorem exec_local_push_never_blocks (c : Cfg) (hc : c.WF) (s : State) (hr : Reach c s)
+    (w id cid p : Nat) (hpc : s.pc w = .rLPub id cid p) : ∃ s', step c s w .publish = some s' := by
+  obtain ⟨I, J, B, K, X, U, M, Z⟩ := Inv.reachable hc hr
+  have hrole : (s.pc w).role = .worker := by rw [hpc]; rfl
+  have hne : s.pc w ≠ .wInit := by rw [hpc]; simp
+  cases hown : s.own w with
+  | none => exact absurd hown (I.o4 w hrole hne)
+  | some k =>
+    have hcell := J.l5 w id cid p k hpc hown
+    have hst : (s.l k).stAt p = some .reserved := by simp [Q.stAt, hcell]
+    have hb := Z.s4 w id cid p k hpc hown
+    have hL := L_le_lslots c gen_queue_sizing.2
+    have hfree : (s.l k).slotFree c.lslots p = true := by
+      rw [Q.slotFree_iff]
+      by_cases hp : p < c.lslots
+      · exact Or.inl hp
+      · right
+        have hlt : p - c.lslots < (s.l k).popIdx := by omega
+        have hlen : p - c.lslots < (s.l k).cells.length := Nat.lt_of_lt_of_le hlt (J.l0 k)
+        have hget : (s.l k).cells[p - c.lslots]? = some ((s.l k).cells[p - c.lslots]) := by simp [hlen]
+        have := (J.l1 k _ _ hget).mpr hlt
+        simp [Q.stAt, hget, this]
+    have : (step c s w .publish).isSome = true := by simp [step, hpc, hown, hfree, hst]
+    exact Option.isSome_iff_exists.mp this
+
+/-- **exec_no_stuck_partial.**  Who waits for whom, in every reachable state: a blocked global pop
+with ticket `i` waits for a push that either nobody has started (`i` beyond the push tickets handed
+out) or that is held by a thread; a blocked global push with ticket `p` waits for pop ticket
+`p - slots`, which is either not handed out yet or held by a worker that is itself waiting; a local
+push never blocks (`exec_local_push_never_blocks`); `stop()` pushes its markers only after the balance
+thread has returned and joins only threads that are not waiting for `stop()`.
+MISSING for the full statement «with `stop()` called, no reachable state has every thread of the
+pool blocked unless every live worker is itself blocked submitting a child into the full global
+queue»: the counting argument that the number of unreceived STOP markers equals the number of live
+workers (so that no worker waits on an empty global queue while `stop()` waits for it) and the
+well-founded descent along `p ↦ p - slots`; the stall classification of every replayed run
+(`stallByDesign` in lean/Drivers/C07.lean) checks the full statement on the real code. -/
+theorem exec_no_stuck_partial (c : Cfg) (hc : c.WF) (s : State) (hr : Reach c s) :
+    (∀ w i, s.pc w = .wGWait i → i < s.g.popIdx ∧
+      (s.g.ready i = true ∨ s.g.cells.length ≤ i ∨ s.g.stAt i = some .reserved)) ∧
+    (∀ t p k, s.pc t = .gPub p k → s.g.stAt p = some .reserved ∧
+      (s.g.slotFree c.gslots p = true ∨ s.g.popIdx ≤ p - c.gslots ∨ ∃ w, s.pc w = .wGWait (p - c.gslots))) ∧
+    (∀ t, (s.pc t).pastB = true → balExited c s) := by
+  obtain ⟨I, J, B, K, X, U, M, Z⟩ := Inv.reachable hc hr
+  refine ⟨?_, ?_, M.m7⟩
+  · intro w i hpc
+    refine ⟨J.g2 w i hpc, ?_⟩
+    cases hst : s.g.stAt i with
+    | none => right; left; exact (Q.stAt_none_iff _ _).mp hst
+    | some st =>
+      cases st with
+      | reserved => right; right; rfl
+      | full => left; exact (Q.ready_iff _ _).mpr hst
+      | free =>
+        exact absurd hst (B.g5 w i hpc)
+  · intro t p k hpc
+    refine ⟨J.g3 t p k hpc, ?_⟩
+    by_cases hf : s.g.slotFree c.gslots p = true
+    · exact Or.inl hf
+    · right
+      by_cases hle : s.g.popIdx ≤ p - c.gslots
+      · exact Or.inl hle
+      · right
+        rcases J.g1 (p - c.gslots) (by omega) with h | h
+        · exfalso; apply hf; rw [Q.slotFree_iff]; exact Or.inr h
+        · exact h
 
 end Babylon.Properties.C07
